@@ -111,35 +111,40 @@ def run(chk):
 
     stats = {"lines": 0, "by_action": {}, "rejected": 0}
 
-    def rv(tag, args):
+    def drv(tag, args):
         def fn():
             rd = vlib.scratch(chk.prop, "drv-" + tag)
             out = os.path.join(rd, "trace.ndjson")
             vlib.run_driver(binary, args + ["-out", out, "-seed", str(chk.seed)], timeout=3000)
-            rows = vlib.read_ndjson(out)
-            hdr, rows = rows[0], rows[1:]
-            for r in rows:
-                stats["by_action"][r["a"]] = stats["by_action"].get(r["a"], 0) + 1
+            rows = vlib.read_ndjson(out)[1:]
             for r in rows[len(rows) // 2: len(rows) // 2 + 1]:
                 chk.sample({"job": tag, "event": r})
-            chunks = [rows[i:i + CHUNK] for i in range(0, len(rows), CHUNK)] or [[]]
-            res = vlib.parallel([("%s-%d" % (tag, i), (lambda i=i, p=p: scan_trace(chk, "trace-%s-%d" % (tag, i), SPEC, "SmallNumTrace",
-                                                                                    "SmallNumTraceScan.cfg", p, hdr)))
-                                 for i, p in enumerate(chunks)], max_workers=3)
-            bad = [r for v in res.values() for r in v]
-            per = {}
-            for r in bad:                       # at most 5 reports (replay files) per action; every rejected line is counted
-                k = key_of(r)
-                if k not in chk.known and per.get(r["a"], 0) >= 5:
-                    continue
-                per[r["a"]] = per.get(r["a"], 0) + 1
-                chk.violation(k, "call rejected by SmallNumTrace: %s" % json.dumps(r)[:600], r)
-            stats["lines"] += len(rows)
-            stats["rejected"] += len(bad)
-            return len(rows)
+            return rows
         return fn
-    tasks += [("rv:" + tag, rv(tag, args)) for tag, args in jobs]
-    res = vlib.parallel(tasks, max_workers=5)
+
+    def validate_all():
+        # (R) all driver modes, then (V) one pooled trace cut into chunks (fewer TLC start-ups than one trace per mode)
+        dres = vlib.parallel([("drv:" + tag, drv(tag, args)) for tag, args in jobs], max_workers=4)
+        rows = [r for tag, _ in jobs for r in dres["drv:" + tag]]
+        for r in rows:
+            stats["by_action"][r["a"]] = stats["by_action"].get(r["a"], 0) + 1
+        hdr = {"a": "hdr", "k": "hdr", "seed": chk.seed}
+        chunks = [rows[i:i + CHUNK] for i in range(0, len(rows), CHUNK)] or [[]]
+        res = vlib.parallel([("chunk-%d" % i, (lambda i=i, p=p: scan_trace(chk, "trace-%d" % i, SPEC, "SmallNumTrace", "SmallNumTraceScan.cfg", p, hdr)))
+                             for i, p in enumerate(chunks)], max_workers=4)
+        bad = [r for i in range(len(chunks)) for r in res["chunk-%d" % i]]
+        per = {}
+        for r in bad:                       # at most 5 reports (replay files) per action; every rejected line is counted
+            k = key_of(r)
+            if k not in chk.known and per.get(r["a"], 0) >= 5:
+                continue
+            per[r["a"]] = per.get(r["a"], 0) + 1
+            chk.violation(k, "call rejected by SmallNumTrace: %s" % json.dumps(r)[:600], r)
+        stats["lines"] += len(rows)
+        stats["rejected"] += len(bad)
+        return len(rows)
+    tasks += [("rv", validate_all)]
+    res = vlib.parallel(tasks, max_workers=3)
     for c in mcs:
         r = res["mc:" + c]
         chk.add_mc("SmallNumMC/" + c, r)
